@@ -40,7 +40,7 @@ import (
 	"verif/harness/internal/ev"
 )
 
-const c53RuleText = "one case = one key: (rule group of 1-2 prison rules: CheckPeriod 1-2 s, StayPeriod 1-2 s (0 rarely), Threshold 0-5, action CLOSE/FINISH/REQ_HEADER_SET, key taken from header/cookie/client ip/query/path/url) x a planned list of request offsets on a shared 6 s timeline (patterns: burst over the threshold + probes inside and after the jail, exactly-threshold then next window, below-threshold spacing, random), planned >= 40 ms away from every model boundary. 100-300 keys per batch interleaved on shared rules. non-trivial: the key crosses the threshold and has an evaluated probe inside the jail and one after it. distinct by (rule parameters, planned offsets)"
+const c53RuleText = "one case = one key: (rule group of 1-2 prison rules: CheckPeriod 1-2 s, StayPeriod 1-2 s (0 rarely), Threshold 0-5, action CLOSE/FINISH/REQ_HEADER_SET, key taken from header/cookie/client ip/query/path/url) x a planned list of request offsets on a shared 6 s timeline (patterns: burst over the threshold + probes inside and after the jail, exactly-threshold then next window, below-threshold spacing, random), planned >= 40 ms away from every model boundary. 100-300 keys per batch interleaved on shared rules; every second key is an IPv6 client, group 0 is keyed by client address; once per batch prison.data is hot-reloaded mid-timeline with the same rules/names and other LRU sizes. non-trivial: the key crosses the threshold and has an evaluated probe inside the jail and one after it. distinct by (rule parameters, planned offsets)"
 
 const (
 	c53TimelineMs = 6000
